@@ -179,9 +179,18 @@ def run_model(rundir, tag, imports, show_expr, case_terms, shard=400, extra_defs
             f.write("Eval vm_compute in (lines (map (%s) cases)).\n" % show_expr)
         files.append(path)
 
+    def big_stack():
+        import resource
+        try:
+            soft, hard = resource.getrlimit(resource.RLIMIT_STACK)
+            resource.setrlimit(resource.RLIMIT_STACK, (hard, hard))
+        except Exception:
+            pass
+
     def one(path):
         p = subprocess.run(["timeout", "300", "coqc", "-Q", COQ, "Ka", "-w", "none", path],
-                           stdout=subprocess.PIPE, stderr=subprocess.STDOUT, text=True, cwd=rundir)
+                           stdout=subprocess.PIPE, stderr=subprocess.STDOUT, text=True, cwd=rundir,
+                           preexec_fn=big_stack)
         if p.returncode != 0:
             raise RuntimeError("coqc failed on %s:\n%s" % (path, p.stdout[-1500:]))
         return _parse_string_output(p.stdout)
